@@ -260,11 +260,14 @@ fn jwt() -> JWT<Claims> { JWT::default(JWT_SECRET) }
 fn basic() -> BasicAuth<String> { BasicAuth { username: BASIC_USER.to_string(), password: BASIC_PASS.to_string() } }
 
 #[derive(Clone)]
-pub enum DynFang { Tag(&'static str), Jwt(JWT<Claims>), Basic(BasicAuth<String>) }
+pub enum DynFang { Tag(&'static str), Jwt(JWT<Claims>), Basic(BasicAuth<String>),
+    /// the array-of-credentials entry point `[BasicAuth; N]` (an impl of its own)
+    BasicArr([BasicAuth<String>; 2]) }
 pub enum DynProc<I: FangProc> {
     Pass(I),
     Jwt(<JWT<Claims> as Fang<I>>::Proc),
     Basic(<BasicAuth<String> as Fang<I>>::Proc),
+    BasicArr(<[BasicAuth<String>; 2] as Fang<I>>::Proc),
 }
 impl<I: FangProc> Fang<I> for DynFang {
     type Proc = DynProc<I>;
@@ -273,6 +276,7 @@ impl<I: FangProc> Fang<I> for DynFang {
             DynFang::Tag(t) => DynProc::Pass(<openapi::Tag as Fang<I>>::chain(&openapi::Tag(t), inner)),
             DynFang::Jwt(j) => DynProc::Jwt(<JWT<Claims> as Fang<I>>::chain(j, inner)),
             DynFang::Basic(b) => DynProc::Basic(<BasicAuth<String> as Fang<I>>::chain(b, inner)),
+            DynFang::BasicArr(b) => DynProc::BasicArr(<[BasicAuth<String>; 2] as Fang<I>>::chain(b, inner)),
         }
     }
     fn openapi_map_operation(&self, op: openapi::Operation) -> openapi::Operation {
@@ -280,6 +284,7 @@ impl<I: FangProc> Fang<I> for DynFang {
             DynFang::Tag(t) => <openapi::Tag as Fang<I>>::openapi_map_operation(&openapi::Tag(t), op),
             DynFang::Jwt(j) => <JWT<Claims> as Fang<I>>::openapi_map_operation(j, op),
             DynFang::Basic(b) => <BasicAuth<String> as Fang<I>>::openapi_map_operation(b, op),
+            DynFang::BasicArr(b) => <[BasicAuth<String>; 2] as Fang<I>>::openapi_map_operation(b, op),
         }
     }
 }
@@ -289,6 +294,7 @@ impl<I: FangProc> FangProc for DynProc<I> {
             DynProc::Pass(p) => p.bite(req).await,
             DynProc::Jwt(p) => p.bite(req).await,
             DynProc::Basic(p) => p.bite(req).await,
+            DynProc::BasicArr(p) => p.bite(req).await,
         }
     }
 }
@@ -298,10 +304,10 @@ impl<I: FangProc> FangProc for DynProc<I> {
 ------------------------------------------------------------------------------------------------ */
 
 #[derive(Clone, Debug, PartialEq, Eq, Hash, serde::Serialize, serde::Deserialize)]
-pub enum FangD { Tag(String), Jwt, Basic }
+pub enum FangD { Tag(String), Jwt, Basic, BasicArr }
 impl FangD {
     fn is_auth(&self) -> bool { !matches!(self, FangD::Tag(_)) }
-    fn kind(&self) -> &'static str { match self { FangD::Tag(_) => "tag", FangD::Jwt => "jwt", FangD::Basic => "basic" } }
+    fn kind(&self) -> &'static str { match self { FangD::Tag(_) => "tag", FangD::Jwt => "jwt", FangD::Basic | FangD::BasicArr => "basic" } }
 }
 
 #[derive(Clone, Debug, PartialEq, Eq, Hash, serde::Serialize, serde::Deserialize)]
@@ -331,7 +337,8 @@ pub struct AppD {
 fn leak(s: &str) -> &'static str { Box::leak(s.to_string().into_boxed_str()) }
 
 fn dynfang(f: &FangD) -> DynFang {
-    match f { FangD::Tag(t) => DynFang::Tag(leak(t)), FangD::Jwt => DynFang::Jwt(jwt()), FangD::Basic => DynFang::Basic(basic()) }
+    match f { FangD::Tag(t) => DynFang::Tag(leak(t)), FangD::Jwt => DynFang::Jwt(jwt()), FangD::Basic => DynFang::Basic(basic()),
+        FangD::BasicArr => DynFang::BasicArr([BasicAuth { username: "someone-else".to_string(), password: "pw2".to_string() }, basic()]) }
 }
 
 fn handler_set(path: &str, methods: &[MethD]) -> HandlerSet {
@@ -1082,7 +1089,10 @@ pub fn run(ctx: &mut Ctx) {
     'all: {
         // ---- A: every catalogue signature on every single route it fits (flat and under a one-segment mount) ----
         let mut k = 0usize;
-        for route in all_routes(depth_a) {
+        // (plus routes capturing three params - a third name `:r` -: the template's `{name}`s are then more than the two the
+        //  request's param store keeps)
+        let three: Vec<Vec<String>> = [vec![":p", ":q", ":r"], vec!["a", ":p", ":q", ":r"], vec![":p", "a", ":q", "b", ":r"]].iter().map(|r| r.iter().map(|s| s.to_string()).collect()).collect();
+        for route in all_routes(depth_a).into_iter().chain(three) {
             let Some((mine, _)) = units.enter(ctx) else { break 'all };
             for e in entries() {
                 if e.n_params() > n_params(&route) { continue }
@@ -1147,8 +1157,8 @@ pub fn run(ctx: &mut Ctx) {
 
         // ---- C: tags and authentication fangs at root / on a mounted child / local to one handler ----
         let t = |s: &str| FangD::Tag(s.into());
-        let root_fangs: Vec<Vec<FangD>> = vec![vec![], vec![t("t0")], vec![FangD::Jwt], vec![FangD::Basic], vec![t("t0"), FangD::Jwt], vec![FangD::Basic, t("t0")]];
-        let child_fangs: Vec<Vec<FangD>> = vec![vec![], vec![t("t1")], vec![FangD::Jwt], vec![FangD::Basic], vec![t("t1"), FangD::Jwt]];
+        let root_fangs: Vec<Vec<FangD>> = vec![vec![], vec![t("t0")], vec![FangD::Jwt], vec![FangD::Basic], vec![t("t0"), FangD::Jwt], vec![FangD::Basic, t("t0")], vec![FangD::BasicArr]];
+        let child_fangs: Vec<Vec<FangD>> = vec![vec![], vec![t("t1")], vec![FangD::Jwt], vec![FangD::Basic], vec![t("t1"), FangD::Jwt], vec![FangD::BasicArr]];
         let local_fangs: Vec<Vec<FangD>> = vec![vec![], vec![FangD::Jwt], vec![FangD::Basic]];
         let routes_c = all_routes(2);
         let mut sets_c: Vec<Vec<c01::RouteSpec>> = vec![];
